@@ -112,14 +112,18 @@ def gen_program(g, length):
                 cand = [v for v in vectors if meta[v][1] == meta[tgt][1]]
                 rhs = {"k": "var", "v": r.choice(cand)} if opn in ("add", "sub") else rhs
             alias = r.random()
-            if alias < 0.2 and meta[tgt][0] == "f8":
+            if alias < 0.3 and meta[tgt][0] == "f8":
                 # the right operand aliases the target: one of its own component Arrays (v *= v.x), or a Vector made of its
                 # components in another order (v += Vector(v.y, v.x)); x op= y must still give x op y
                 comps = tgt_comps.get(tgt)
                 if comps:
-                    if alias < 0.1:
+                    if alias < 0.2:
                         opn = r.choice(["add", "sub", "mul"])
                         rhs = {"k": "var", "v": r.choice(comps)}
+                        if opn == "mul" and r.random() < 0.5:
+                            # ... or the raw ndarray of that component (v *= v.x.values): wrapped into an Array it still
+                            # shares the component's buffer
+                            rhs = {"k": "ndview", "v": rhs["v"]}
                     elif len(comps) > 1:
                         opn = r.choice(["add", "sub"])
                         perm = comps[:]
